@@ -29,7 +29,7 @@ def plan(tier, seed):
     specs = [{"mode": "dirs", "n": n, "rseed": seed * 1000 + i, "registry": i % 3 != 2} for i in range(14)]
     # the same relations with every peltool invocation in a FRESH process (nothing carried over between the modes), on
     # directories whose PELs share component ids across creator classes
-    m = 12 if tier == "quick" else 150
+    m = 16 if tier == "quick" else 150
     specs += [{"mode": "fresh", "n": m, "rseed": seed * 1000 + 500 + i, "registry": i == 0} for i in range(2)]
     return specs
 
@@ -87,8 +87,15 @@ def run_fresh(spec, ctx, rng, u, reg, root):
     for i in range(spec["n"]):
         comp = rng.choice([0x4142, 0x4842, 0x2000, 0x5A5A])
         ents = dirs.gen_dir_model(rng, u, rng.randrange(2, 7), reg=reg, with_ps=0.8)
-        for e in ents:
+        ents.sort(key=lambda e: e.name)
+        for k, e in enumerate(ents):
             # one component id used by PELs of several creator classes (PHYP shows it as two characters, others as hex / a name)
+            if k == 0 and e.pel.creator != "H":
+                # the first file: the id only occurs AFTER its primary SRC (in a section contributed by PHYP), where the list
+                # mode does not look but the display-all mode does
+                e.pel.sections.append(pm.sec_ud(rng, u, e.pel.creator, comp, 1, 1, pm.gen_payload(rng, u, 8), ext_creator="H"))
+                e.data = e.pel.encode()
+                continue
             if rng.random() < 0.7:
                 e.pel.ph["comp"] = comp
             if rng.random() < 0.5:
